@@ -24,6 +24,8 @@ type C14Case struct {
 	Seq   gen.B  `json:"seq"`
 	Cut   int    `json:"cut"`
 	Spare int    `json:"spare,omitempty"` // capacity of dst, see sentinelDst
+	// FirstCall: the named function is run as the first call into the package in a fresh process
+	FirstCall string `json:"first_call,omitempty"`
 }
 
 func genC14(t *rapid.T, thorough bool) C14Case {
@@ -62,6 +64,11 @@ func validDNA(s []byte) bool {
 }
 
 func checkC14(c C14Case, o *Obs) (err error) {
+	if c.FirstCall != "" {
+		o.NT = true
+		o.Class("first call in a fresh process")
+		return runFirstCall(c.FirstCall)
+	}
 	// either an exact-capacity slice (nil when empty) or a window with valid bases behind it
 	seq := window(c.Seq, (len(c.Seq)+len(c.Dst)+c.Cut+c.Spare)%2 == 0)
 	defer func() {
@@ -235,6 +242,18 @@ func checkC14(c C14Case, o *Obs) (err error) {
 }
 
 func exhaustiveC14(thorough bool, emit func(C14Case) bool) {
+	if !emit(C14Case{FirstCall: "Translate"}) {
+		return
+	}
+	if !emit(C14Case{FirstCall: "TranslateReadingFrames"}) {
+		return
+	}
+	if !emit(C14Case{FirstCall: "AminoName"}) {
+		return
+	}
+	if !emit(C14Case{FirstCall: "Translate-panics"}) {
+		return
+	}
 	// gene- and contig-sized coding sequence (size ladder), real-data-shaped
 	for i, n := range sizeLadderLinear {
 		s := realDNA(n, i, false, true)
